@@ -216,8 +216,9 @@ pub fn instantiate(p: &InitParams) -> (Option<VH>, String) {
     let msg = InstantiateMsg {
         decimals: p.dp,
         pricefeed: "pricefeed".to_string(),
-        margin_engine: Some("engine".to_string()),
-        insurance_fund: Some("insurance".to_string()),
+        // one deployment in five leaves the engine and the fund unset (to be wired later): nobody holds those roles until then
+        margin_engine: if p.height % 5 == 0 { None } else { Some("engine".to_string()) },
+        insurance_fund: if p.height % 5 == 0 { None } else { Some("insurance".to_string()) },
         quote_asset: "ETH".to_string(),
         base_asset: "USD".to_string(),
         quote_asset_reserve: Uint128::new(p.qr),
@@ -234,8 +235,8 @@ pub fn instantiate(p: &InitParams) -> (Option<VH>, String) {
     let ok = matches!(r, Ok(Ok(_)));
     let dec = if p.dp <= 38 { 10u128.pow(p.dp as u32) } else { 0 };
     let head = format!(
-        "dp={} ptoll={} pspread={} pfluct={} period={} qr={} br={} time={} height={} ok={}",
-        p.dp, p.toll, p.spread, p.fluct, p.period, p.qr, p.br, p.time, p.height, ok as u8
+        "dp={} ptoll={} pspread={} pfluct={} pwired={} period={} qr={} br={} time={} height={} ok={}",
+        p.dp, p.toll, p.spread, p.fluct, (p.height % 5 != 0) as u8, p.period, p.qr, p.br, p.time, p.height, ok as u8
     );
     if ok {
         let vh = VH { deps, env, oracle, dec };
